@@ -120,7 +120,10 @@ func modelCheck() {
 	r := need("mc", "MC_Pipeline.cfg", 4, thorough)
 	if thorough {
 		// (TLC attributes Start to the enclosing MCNext disjunct in this config)
-		r.ActionCount["Start"] += r.ActionCount["MCNext"]
+		for _, m := range regexp.MustCompile(`(?m)^<MCNext line [^>]*>: (\d+):(\d+)`).FindAllStringSubmatch(r.Output, -1) {
+			n, _ := strconv.ParseInt(m[2], 10, 64)
+			r.ActionCount["Start"] += n
+		}
 		for _, a := range []string{"Start", "Emit", "CacheGet", "Validate", "CacheAdd"} {
 			if r.ActionCount[a] == 0 {
 				vlib.Infra("vacuous model check: action %s was never taken (coverage %v)", a, r.ActionCount)
